@@ -670,6 +670,46 @@ func (n *node) applyNext(e entry) error {
 	return nil
 }
 
+// failingGet forwards every method to lindb's own replicator (IgnoreMessage, Consume, Replica ...
+// are the real ones) except GetMessage, which reports the entry seq as unreadable.
+type failingGet struct {
+	replica.Replicator
+	seq int64
+	hit *bool
+}
+
+func (f failingGet) GetMessage(idx int64) ([]byte, error) {
+	if idx == f.seq {
+		*f.hit = true
+		return nil, queue.ErrMsgNotFound
+	}
+	return f.Replicator.GetMessage(idx)
+}
+
+// applyGetFail runs one iteration of the partition's replica loop body in which GetMessage fails for
+// the next entry e: partition.replica's error branch (replicator.IgnoreMessage(seq), no Replica).
+func (n *node) applyGetFail(e entry) error {
+	if !n.pending() {
+		return errors.New("nothing pending")
+	}
+	hit := false
+	var old replica.Replicator
+	if !replica.VerifWrapReplicator(n.part, leader, func(r replica.Replicator) replica.Replicator {
+		old = r
+		return failingGet{Replicator: r, seq: e.Seq, hit: &hit}
+	}) {
+		return errors.New("no local replicator")
+	}
+	defer replica.VerifWrapReplicator(n.part, leader, func(replica.Replicator) replica.Replicator { return old })
+	if !replica.VerifReplicaOnce(n.part, leader) {
+		return errors.New("no local replicator")
+	}
+	if !hit {
+		return fmt.Errorf("the replica loop did not ask for entry %d", e.Seq)
+	}
+	return nil
+}
+
 // ---------------------------------------------------------------- flush steps (the public steps doFlush calls)
 
 func (n *node) flushMeta() error {
